@@ -131,4 +131,38 @@ def run(v):
 
 
 def replay(v, obj):
-    raise core.MachineryError("C20 events are deterministic functions of the tree; rerun ./check C20")
+    """recompute the metadata events on the current tree and judge the one that was recorded"""
+    import random
+    d = core.workdir("C20_replay")
+    p = params.stage(d)
+    want = obj["event"]
+    keyf = lambda e: (e["ev"], e.get("r"), e.get("a"), e.get("b"), e.get("cell"), tuple(e.get("cells", [])), e.get("t"))
+    evs = [e for e in build_events(p, True, random.Random(core.seed() + 20)) if keyf(e) == keyf(want)]
+    if want["ev"] in ("len", "sizing") and not evs:
+        # rebuild the observation directly from the recorded arguments
+        ser, org, utils = cells.api()
+        from a5.core import cell_info
+        import a5
+        if want["ev"] == "len":
+            cid = int(want["cell"], 16)
+            kids = ser.cell_to_children(cid, want["b"])
+            evs = [dict(want, len=len(kids), num=core.me_pair(cell_info.get_num_children(want["a"], want["b"])))]
+        else:
+            members = [int(x, 16) for x in want["cells"]]
+            t = want["t"]
+            try:
+                got = a5.uncompact(list(members), t)
+                n, zeros = len(got), sum(1 for x in got if x == 0)
+            except Exception:
+                n, zeros = -1, 0
+            evs = [dict(want, want=sum(len(ser.cell_to_children(c, t)) for c in members),
+                        rule=core.me_pair(sum(cell_info.get_num_children(ser.get_resolution(c), t) for c in members)), got=n, fillers=zeros)]
+    if not evs:
+        raise core.MachineryError("recorded event not found among the recomputed ones")
+    tres, bad = core.judge(d, "Trace_Tree", evs[:1], timeout=300)
+    v.add_tlc("Trace_Tree", tres)
+    v.traces += 1
+    v.sample(want)
+    for i, clauses in bad.items():
+        v.violation(clauses[0], {"clauses": clauses, "event": evs[0]}, obj, {"clause": clauses[0]})
+    return "replay of one metadata observation"
